@@ -344,6 +344,9 @@ class SplineFit(Contract):
 @register
 class VectorSplineFit(Contract):
     target = "verde.vector:VectorSpline2D.fit"
+    # no reuse history: property C20 exempts exactly this memory ("the only memory being VectorSpline2D's documented reuse
+    # of its first force locations") - a refit keeps the forces where the first fit put them
+    reuse_variant = False
     stubs = {"check_fit_input": BU + ":check_fit_input", "n_1d_arrays": BU + ":n_1d_arrays", "get_region": M + ":get_region", "VectorSpline2D.jacobian": "verde.vector:VectorSpline2D.jacobian", "least_squares": LS + ":least_squares"}
     inline = ("warn_weighted_exact_solution",)
     frame_attrs = {"region_", "force_coords", "force_"}
